@@ -2,8 +2,6 @@ package mc
 
 import (
 	"bufio"
-	"sync/atomic"
-	"time"
 	"encoding/json"
 	"fmt"
 	"os"
@@ -12,6 +10,8 @@ import (
 	"strconv"
 	"strings"
 	"sync"
+	"sync/atomic"
+	"time"
 )
 
 // Sharded runs cases 0..n-1 in worker subprocesses (so that a crash of the code under
@@ -25,6 +25,8 @@ type Sharded struct {
 	Run func(c *Ctx, i int)
 	// Describe names case i (for crash reports / replays).
 	Describe func(i int) string
+	// WorkerCases: cases a worker process runs before it is recycled (0 = default)
+	WorkerCases int
 }
 
 var ShardedRegistry = map[string]*Sharded{}
@@ -84,6 +86,9 @@ func WorkerMain(args []string) int {
 	// under test - wasmtime code mappings - are only released by finalizers): it reports
 	// "yield" and the parent starts a fresh process for the rest of the shard
 	maxCases := 400
+	if s.WorkerCases > 0 {
+		maxCases = s.WorkerCases
+	}
 	if v := os.Getenv("VERIF_WORKER_CASES"); v != "" {
 		if n, err := strconv.Atoi(v); err == nil && n > 0 {
 			maxCases = n
@@ -108,6 +113,11 @@ func WorkerMain(args []string) int {
 	}
 	emit(wireMsg{T: "done"})
 	return 0
+}
+
+// nativeExhaustion: the worker died because the process (not the case) ran out of memory mappings.
+func nativeExhaustion(tail string) bool {
+	return strings.Contains(tail, "unable to make memory executable") || strings.Contains(tail, "Cannot allocate memory") || strings.Contains(tail, "failed to allocate")
 }
 
 // RunSharded drives the workers from the parent process.
@@ -244,7 +254,14 @@ func (c *Ctx) RunSharded(name string) {
 			mu.Lock()
 			seenCls[cls] = false
 			mu.Unlock()
-			c.HarnessError(fmt.Sprintf("%s: worker death on case %s not reproducible (%d/3): %s", name, desc, confirmed, firstPanicLine(tail)))
+			if confirmed == 0 && nativeExhaustion(tail) {
+				// the worker process ran out of a native resource (wasmtime code mappings are
+				// only released by finalizers); the case itself ran to completion three times in
+				// a fresh process, and the shard continues in a fresh worker after it
+				c.Add("worker_restarts_on_native_resource_exhaustion", 1)
+			} else {
+				c.HarnessError(fmt.Sprintf("%s: worker death on case %s not reproducible (%d/3): %s", name, desc, confirmed, firstPanicLine(tail)))
+			}
 		}
 	}
 	var wg sync.WaitGroup
@@ -280,7 +297,6 @@ func (c *Ctx) RunSharded(name string) {
 	wg.Wait()
 	c.Set(name+".cases", total)
 }
-
 
 func firstPanicLine(s string) string {
 	for _, l := range strings.Split(s, "\n") {
